@@ -38,14 +38,19 @@ func genC10(t *rapid.T) c10Case {
 	ids := []string{"r1", "r2", "r3"}
 	for i := 0; i < n; i++ {
 		l := fmt.Sprintf("op%d", i)
-		kinds := []string{"add", "add", "add", "rem", "disable", "disable", "enable", "reload", "event", "event", "event", "event", "locOff", "locOn", "fact"}
+		kinds := []string{"add", "add", "add", "rem", "disable", "disable", "enable", "reload", "event", "event", "event", "event", "locOff", "locOn", "fact", "sched"}
 		if c.Parent {
-			kinds = append(kinds, "padd", "prem", "pdisable", "penable")
+			kinds = append(kinds, "padd", "prem", "pdisable", "penable", "plocOff", "plocOn")
 		}
 		id := rapid.SampledFrom(ids).Draw(t, l+".id")
 		switch k := rapid.SampledFrom(kinds).Draw(t, l+".kind"); k {
 		case "add":
 			c.Ops = append(c.Ops, op{K: "addRule", Loc: "L", Id: id, N: int64(rapid.IntRange(0, len(c10Whens)-1).Draw(t, l+".when"))})
+		case "sched":
+			// a scheduled rule written under a rule id replaces the rule
+			// (N = -1 marks it)
+			c.Ops = append(c.Ops, op{K: "addRule", Loc: "L", Id: id, N: -1})
+			c.Ops = append(c.Ops, op{K: "event", Loc: "L", N: int64(rapid.IntRange(0, len(c10Events)-1).Draw(t, l+".fev"))})
 		case "fact":
 			// a plain fact written under a rule id replaces the rule
 			c.Ops = append(c.Ops, op{K: "addFact", Loc: "L", Id: id})
@@ -65,6 +70,11 @@ func genC10(t *rapid.T) c10Case {
 			}
 		case "locOn":
 			c.Ops = append(c.Ops, op{K: "locEnabled", Loc: "L", Id: rapid.SampledFrom([]string{"yes", "true"}).Draw(t, l+".val")})
+		case "plocOff":
+			c.Ops = append(c.Ops, op{K: "plocEnabled", Loc: "P", Id: rapid.SampledFrom([]string{"no", "off"}).Draw(t, l+".val")})
+			c.Ops = append(c.Ops, op{K: "event", Loc: "L", N: int64(rapid.IntRange(0, len(c10Events)-1).Draw(t, l+".fev"))})
+		case "plocOn":
+			c.Ops = append(c.Ops, op{K: "plocEnabled", Loc: "P", Id: "yes"})
 		case "padd":
 			c.Ops = append(c.Ops, op{K: "addRule", Loc: "P", Id: "p" + id, N: int64(rapid.IntRange(0, len(c10Whens)-1).Draw(t, l+".when"))})
 		case "prem":
@@ -126,17 +136,23 @@ func runC10(c c10Case) *vlib.Outcome {
 			}
 			switch x.K {
 			case "addRule":
-				if x.N < 0 || int(x.N) >= len(c10Whens) {
+				if x.N < -1 || int(x.N) >= len(c10Whens) {
 					continue
 				}
 				tag := fmt.Sprintf("t%d", i)
 				_, had := ml.Items[x.Id]
+				newRule := M{"schedule": "+1h", "action": M{"code": "'" + tag + "'"}}
+				if x.N >= 0 {
+					newRule = mkRule(c10Whens[x.N], tag)
+				} else {
+					o.Label("overwritten-by-scheduled-rule")
+				}
 				if !locOn {
-					_, err := w.locs[x.Loc].AddRule(newCtx(), x.Id, core.Map(mkRule(c10Whens[x.N], tag)))
+					_, err := w.locs[x.Loc].AddRule(newCtx(), x.Id, core.Map(newRule))
 					expectDisabled(err, "AddRule")
 					break
 				}
-				if r := w.addRule(x.Loc, x.Id, mkRule(c10Whens[x.N], tag)); r.Err != nil {
+				if r := w.addRule(x.Loc, x.Id, newRule); r.Err != nil {
 					o.Fail("ADDRULE_ERROR", "%s: AddRule failed: %v", when, r.Err)
 				} else if had {
 					pendingOverwrite = true
@@ -193,6 +209,16 @@ func runC10(c c10Case) *vlib.Outcome {
 					if exists {
 						pendingDisable = true
 					}
+				}
+			case "plocEnabled":
+				if _, have := w.locs["P"]; !have {
+					continue
+				}
+				if err := w.setProp("P", "", "enabled", x.Id); err != nil {
+					o.Fail("SETPROP_ERROR", "%s: SetProp(enabled) on the parent failed: %v", when, err)
+				}
+				if x.Id != "yes" {
+					o.Label("parent-disabled")
 				}
 			case "locEnabled":
 				if err := w.setProp("L", "", "enabled", x.Id); err != nil {
